@@ -91,3 +91,14 @@ func VerifH_C11_Hostile_DictionaryIndexes() {
 	_, _ = d.Decode(nil, src, zzverif.Uint64("count"))
 	zzverif.Reach("returned")
 }
+
+//verif:harness prop=C11 tier=quick,thorough reach=returned paths=200000
+// DecodeBytes with a maximal-length (10-byte) length prefix, i.e. claimed lengths up to 2^64-1:
+// an error or a value, never a slice panic.
+// bound: src of 10..11 arbitrary bytes
+func VerifH_C11_Hostile_DecodeBytesLong() {
+	src := zzverif.Bytes("src", 10+zzverif.Choice("extra", 2))
+	_, _, _ = DecodeBytes(src)
+	_, _ = BytesToVarUint64(src)
+	zzverif.Reach("returned")
+}
